@@ -968,21 +968,44 @@ def exit_set_scope(ctx, rid: str) -> None:
         return
     pi = par[0]
     loops = [x for st in pi.body for x in ast.walk(st) if isinstance(x, ast.While)]
+    wf, w_out, dom_in, tgt_in = f, None, dom, tgt
+    if not loops:
+        # the walk extracted into a helper:  region = self._helper(target_state, domain)
+        for a in [x for st in pi.body for x in ast.walk(st) if isinstance(x, ast.Assign) and isinstance(x.targets[0], ast.Name) and isinstance(x.value, ast.Call)]:
+            callee = a.value.func.attr if isinstance(a.value.func, ast.Attribute) else (a.value.func.id if isinstance(a.value.func, ast.Name) else None)
+            argn = [norm(z) for z in a.value.args]
+            if callee is None or tgt not in argn or dom not in argn:
+                continue
+            try:
+                h = p.method("BaseInterpreter", callee)
+            except Exception:
+                continue
+            hl = [x for x in own_nodes(h.node) if isinstance(x, ast.While)]
+            hp = [q for q in h.params if q not in ("self", "cls")]
+            if len(hl) == 1 and len(hp) == len(argn):
+                loops, wf, w_out = hl, h, a.targets[0].id
+                tgt_in, dom_in = hp[argn.index(tgt)], hp[argn.index(dom)]
+                break
     if not c.expect(rid, "walk from the target up to the domain's child", len(loops), 1, f,
                     "the parallel-domain branch no longer walks from the target up to the child of the domain that contains it", pi):
         return
     lp = loops[0]
     steps = [x for x in lp.body if isinstance(x, ast.Assign) and isinstance(x.targets[0], ast.Name) and norm(x.value) == f"{x.targets[0].id}.parent"]
     w = steps[0].targets[0].id if steps else None
-    init = [a for a in assignments_to(f, w) if getattr(a, "value", None) is not None and norm(a.value) == tgt] if w else []
+    init = [a for a in assignments_to(wf, w) if getattr(a, "value", None) is not None and norm(a.value) == tgt_in] if w else []
     mode, ex = loop_exit_atoms(lp.test)
-    want = ("is", *sorted([f"{w}.parent", dom]), True)
+    want = ("is", *sorted([f"{w}.parent", dom_in]), True)
     allowed = {want, ("is", *sorted([w or "?", "None"]), True)}
     ok = bool(w) and bool(init) and want in ex and set(ex) <= allowed and (mode == "any" or len(ex) == 1)
+    if wf is not f:
+        # the helper hands the walker back
+        ok = ok and any(isinstance(r_, ast.Return) and r_.value is not None and norm(r_.value) == w for r_ in own_nodes(wf.node))
     c.ob(rid, ok, f, "region-walk-postcondition", f"when the walk ends, {w}.parent is the domain: {w} is the region that contains the target" if ok else
          f"the walk 'while {norm(lp.test)}' does not establish '{w}.parent is {dom}' when it ends (it ends when one of {ex} holds; it must start at "
          f"the target and end only at the domain's child): the exit set is narrowed to the wrong subtree - e.g. to the target's own subtree, so the "
          f"source state in the same region stays active next to the target", lp)
+    if w_out is not None:
+        w = w_out
     narrowed = [x for st in pi.body for x in ast.walk(st) if isinstance(x, ast.SetComp)]
     if c.expect(rid, "narrowing of the exit set to the target's region", len(narrowed), 1, f, "the exit set is no longer narrowed to the region", pi) and w:
         nc = narrowed[0]
